@@ -113,6 +113,9 @@ def _ordered_names(fn):
             visit(n.iter); targets(n.target)
             for s in n.body + n.orelse: visit(s)
             return
+        if isinstance(n, ast.Lambda):
+            for a_ in n.args.args: add(a_.arg)
+            visit(n.body); return
         if isinstance(n, (ast.ListComp, ast.GeneratorExp, ast.SetComp)):
             for g in n.generators:
                 visit(g.iter); targets(g.target)
@@ -228,6 +231,11 @@ def _natkey(x):
     return [int(t) if t.isdigit() else t for t in re.split(r"(\d+)", x)]
 
 
+class Widen(Exception):
+    """a loop-carried local of type τ is assigned an `Option τ` inside the loop: it is carried as `Option τ`"""
+    def __init__(self, name): self.name = name
+
+
 class Vocab:
     """vocabulary of one function: how the mesh API / containers it touches are rendered in Lean (the trusted part)"""
 
@@ -276,6 +284,9 @@ class Compiler:
         self.returns = [(_pat_expr(p, self.pmap), t) for (p, t) in vocab.returns]
         self.empties = list(vocab.empties)
         self.aux = []
+        self.widened = set()
+        # locals that are decremented / assigned a negative value are integers (a literal `0` assigned to them is an `Int`)
+        self.int_names = {n.target.id for n in ast.walk(self.fn) if isinstance(n, ast.AugAssign) and isinstance(n.op, ast.Sub) and isinstance(n.target, ast.Name)}
         self.nloop = 0
         self.ntmp = 0
         self.doc = doc
@@ -610,13 +621,15 @@ class Compiler:
             names = []
             for t, (e, ty) in zip(target.elts, vals):
                 if not isinstance(t, ast.Name): raise self.err(f"unsupported assignment target `{self.show(t)}`")
-                env2[t.id] = self.keep_type(env.get(t.id), ty); names.append(t.id)
+                env2[t.id] = self.keep_type(env.get(t.id), ty, t.id); names.append(t.id)
             line = f"{ind}let {tup(names)} : {prod([atom(env2[x]) for x in names])} := {tup([e for e, _ in vals])}\n"
             return self.with_pre(pre, line + nxt(env2), ind, exits)
         e, te = self.E(value, env, pre)
         env2 = dict(env)
+        if isinstance(target, ast.Name) and target.id in self.int_names and te == "Nat":
+            e, te = self.cast(e, "Nat", "Int"), "Int"
         if isinstance(target, ast.Name):
-            env2[target.id] = self.keep_type(env.get(target.id), te)
+            env2[target.id] = self.keep_type(env.get(target.id), te, target.id)
             line = f"{ind}let {target.id} : {env2[target.id]} := {e}\n"
         elif isinstance(target, ast.Attribute) and (ast.unparse(target) in env or
                                                     (isinstance(target.value, ast.Name) and target.value.id == "p0")):
@@ -628,8 +641,11 @@ class Compiler:
             line = f"{ind}let {binder} := {e}\n"
         return self.with_pre(pre, line + nxt(env2), ind, exits)
 
-    def keep_type(self, old, new):
+    def keep_type(self, old, new, name=None):
         if old is None or old == new: return new
+        if name is not None and (arg_of(new, "Option") == old or arg_of(old, "Option") == new):
+            if name in self.widened: return new
+            if arg_of(new, "Option") == old: raise Widen(name)
         if "?" in new: return old
         if "?" in old: return new
         order = ["Nat", "Int", "Rat"]
@@ -681,22 +697,28 @@ class Compiler:
         if not orelse: e_e.update(env)
         outs = sorted([x for x in asg if x in e_b and x in e_e and e_b[x] != "Ignored"], key=_natkey)
         if not outs: raise self.err(f"`if {self.show(s.test)}` has no effect the translator can see")
+        wrap_b, wrap_e = set(), set()
         for x in outs:
-            if e_b[x] != e_e[x]: raise self.err(f"local gets type {e_b[x]} in one branch and {e_e[x]} in the other")
+            if e_b[x] != e_e[x]:
+                if arg_of(e_e[x], "Option") == e_b[x]: wrap_b.add(x); env2[x] = e_e[x]; continue
+                if arg_of(e_b[x], "Option") == e_e[x]: wrap_e.add(x); env2[x] = e_b[x]; continue
+                raise self.err(f"local gets type {e_b[x]} in one branch and {e_e[x]} in the other")
             env2[x] = e_b[x]
         res = tup([self.lname(x) for x in outs])
+        res_b = tup([(f"(some {self.lname(x)})" if x in wrap_b else self.lname(x)) for x in outs])
+        res_e = tup([(f"(some {self.lname(x)})" if x in wrap_e else self.lname(x)) for x in outs])
         tys = prod([atom(env2[x]) for x in outs])
         if raising:
-            txt = (f"{ind}match (if {c} then (\n{tb_txt.replace('@@', 'some ' + res)})\n{ind}  else (\n{te_txt.replace('@@', 'some ' + res)}) : Option {atom(tys)}) with\n"
+            txt = (f"{ind}match (if {c} then (\n{tb_txt.replace('@@', 'some ' + res_b)})\n{ind}  else (\n{te_txt.replace('@@', 'some ' + res_e)}) : Option {atom(tys)}) with\n"
                    f"{ind}| none => {exits['raise']}\n{ind}| some {res} =>\n")
         else:
-            txt = (f"{ind}let {res} : {tys} := if {c} then (\n{tb_txt.replace('@@', res)})\n{ind}  else (\n{te_txt.replace('@@', res)})\n")
+            txt = (f"{ind}let {res} : {tys} := if {c} then (\n{tb_txt.replace('@@', res_b)})\n{ind}  else (\n{te_txt.replace('@@', res_e)})\n")
         return self.with_pre(pre, txt + nxt(env2), ind, exits)
 
     def probe_raising(self, stmts, env, extra):
         """does compiling these statements need the `raise` exit?  (compiled on a scratch copy of the compiler state)"""
         probe = Compiler.__new__(Compiler); probe.__dict__.update(self.__dict__)
-        probe.aux = []; probe.empties = list(self.empties)
+        probe.aux = []; probe.empties = list(self.empties); probe.widened = set(self.widened)
         try:
             probe.block(stmts, env, dict({"fall": lambda e2: "@@"}, **extra), "    ")
         except TranslateError as e:
@@ -711,6 +733,23 @@ class Compiler:
         return carried, frees
 
     def for_stmt(self, s, env, nxt, ind, exits):
+        """`for`, retried with a loop-carried local widened to `Option τ` when the body assigns it an optional value"""
+        prefix, env = "", dict(env)
+        self.widened = {x for x in self.widened if arg_of(env.get(x, ""), "Option") is not None}
+        for _ in range(6):
+            saved = (self.nloop, list(self.aux), list(self.empties), self.ntmp)
+            try:
+                return prefix + self._for_stmt(s, env, nxt, ind, exits)
+            except Widen as w:
+                self.nloop, self.aux, self.empties, self.ntmp = saved
+                if w.name not in env or arg_of(env[w.name], "Option") is not None:
+                    raise self.err(f"a local changes its type to an optional value: {self.unren(w.name)}")
+                prefix += f"{ind}let {w.name} : Option {atom(env[w.name])} := some {w.name}\n"
+                env[w.name] = f"Option {atom(env[w.name])}"
+                self.widened.add(w.name)
+        raise self.err("cannot type the loop-carried locals")
+
+    def _for_stmt(self, s, env, nxt, ind, exits):
         self.nloop += 1
         k = self.nloop
         pre = []
@@ -727,12 +766,46 @@ class Compiler:
         carried, frees = self.loop_sig(body, [], env, own)
         if isinstance(s.iter, (ast.Name, ast.Attribute)) and ast.unparse(s.iter) in carried:
             raise self.err("the loop changes the container it iterates over")
+        def _returns(nodes):
+            for n in nodes:
+                if isinstance(n, ast.Return): return True
+                if isinstance(n, (ast.FunctionDef, ast.Lambda)): continue
+                if _returns(list(ast.iter_child_nodes(n))): return True
+            return False
+        if not carried and _returns(body):
+            # search loop: `for x in L: … return e …` — the first iteration that returns decides (Option R state, `none` = go on)
+            if self.v.raising or pre or "return" not in exits: raise self.err("`return` inside a loop of a raising function")
+            R = self.v.ret
+            ex = {"fall": lambda e2: "none", "continue": lambda e2: "none",
+                  "return": lambda v_, e2: "some " + atom(exits["return"](v_, e2)), "raise": None}
+            btxt = self.block(body, env_b, ex, "  ")
+            fparams = "".join(f" ({self.lname(x)} : {env[x]})" for x in frees)
+            fargs = "".join(" " + self.lname(x) for x in frees)
+            ctxa = (" " + self.v.ctxargs) if self.v.ctxargs else ""
+            self.aux.append(
+                f"/-- `{self.src_name}`, loop {k}: one iteration of `for {self.show(s.target)} in {self.show(s.iter)}`; the state is the value "
+                f"`return`ed by an earlier iteration, if any -/\n"
+                f"def {self.name}_for{k}_step{(' ' + self.v.ctx) if self.v.ctx else ''}{fparams} (st : Option {atom(R)}) (x : {el}) : Option {atom(R)} :=\n"
+                f"  if st.isSome then st else\n  let {binder} := x\n{btxt}\n")
+            return (f"{ind}match ({it}).foldl ({self.name}_for{k}_step{ctxa}{fargs}) none with\n{ind}| some r => r\n{ind}| none =>\n") + nxt(env)
         if not carried: raise self.err(f"`for {self.show(s.target)} in …` changes nothing the translator can see")
-        has_break = any(isinstance(n, ast.Break) for st in body for n in ast.walk(st) if not isinstance(st, (ast.For, ast.While)))
+        def _breaks(nodes):
+            for n in nodes:
+                if isinstance(n, ast.Break): return True
+                if isinstance(n, (ast.For, ast.While)): continue      # a `break` there leaves that loop
+                if _breaks(list(ast.iter_child_nodes(n))): return True
+            return False
+        has_break = _breaks(body)
         sigma = prod([atom(env[x]) for x in carried])
         st_t = f"(Bool × {_unparen(sigma)})" if has_break else sigma
         st_pat = tup([self.lname(x) for x in carried])
-        ret = lambda flag: (lambda e2: (f"({flag}, {_unparen(st_pat)})" if has_break else st_pat))   # noqa
+        def ret(flag):
+            def f(e2):
+                parts = [(f"(some {self.lname(x)})" if (e2.get(x) != env[x] and arg_of(env[x], "Option") == e2.get(x)) else self.lname(x))
+                         for x in carried]
+                if has_break: return f"({flag}, {', '.join(parts)})"
+                return parts[0] if len(parts) == 1 else "(" + ", ".join(parts) + ")"
+            return f
         raising = self.probe_raising(body, env_b, {"continue": ret("false"), "break": ret("true")})
         wrap = (lambda f: (lambda e2: "some " + f(e2))) if raising else (lambda f: f)
         ex = {"fall": wrap(ret("false")), "continue": wrap(ret("false")), "break": wrap(ret("true")), "raise": ("none" if raising else None)}
